@@ -838,7 +838,7 @@ impl Version {
                     size,
                 };
                 self.expand_compaction(&mut core);
-                if self.may_choose_compaction(&core) {
+                if self.covers_intermediate_levels(&core) && self.may_choose_compaction(&core) {
                     FIND_BEST_COMPACTION_MAY_CHOOSE.click();
                     candidate = Some(Compaction {
                         core: Arc::new(core),
@@ -894,6 +894,24 @@ impl Version {
                 compaction.inputs.append(&mut to_add);
             }
         }
+    }
+
+    // A compaction moves its inputs to upper_level.  Every file of a level in between that
+    // overlaps the compaction's key range holds versions older than the lower levels' and newer
+    // than the upper level's, so it must be an input too:  left where it is, it would sit above
+    // the newer versions the compaction carries past it.
+    fn covers_intermediate_levels(&self, core: &CompactionCore) -> bool {
+        for level in core.lower_level + 1..core.upper_level {
+            for sst in self.levels[level].ssts.iter() {
+                if sst.first_key.as_slice() <= core.last_key.as_slice()
+                    && core.first_key.as_slice() <= sst.last_key.as_slice()
+                    && !core.inputs.contains(&Setsum::from_digest(sst.setsum))
+                {
+                    return false;
+                }
+            }
+        }
+        true
     }
 
     fn may_choose_compaction(&self, core: &CompactionCore) -> bool {
